@@ -68,6 +68,14 @@ func (ex *Exec) assumeFieldInvAll(st *State, name, term string) {
 	if !ok {
 		return
 	}
+	// heap closure: a reference stored in a field is an allocated object (or nil)
+	if s := ex.svSort(name); s.K == KArr && s.Elem.K == KRef && !ex.inFieldInv {
+		ex.regSV("alloc", SInt)
+		ex.inFieldInv = true
+		al := ex.get(st, "alloc")
+		ex.inFieldInv = false
+		ex.vc.assume("(forall ((q_o Int)) (! (and (>= (select " + term + " q_o) 0) (<= (select " + term + " q_o) " + al + ")) :pattern ((select " + term + " q_o))))")
+	}
 	invs := ex.cs.FieldInvs[sf[0]+"."+sf[1]]
 	if len(invs) == 0 || ex.inFieldInv {
 		return
@@ -130,7 +138,8 @@ func (ex *Exec) store(st *State, lp *LPath, v string) {
 		if lp.Base.Sort.K == KString {
 			nv = "(str.++ (str.substr " + base + " 0 " + lp.Idx + ") (str.from_code " + v + ") (str.substr " + base + " (+ " + lp.Idx + " 1) (str.len " + base + ")))"
 		} else {
-			nv = "(seq.++ (seq.extract " + base + " 0 " + lp.Idx + ") (seq.unit " + v + ") (seq.extract " + base + " (+ " + lp.Idx + " 1) (seq.len " + base + ")))"
+			el := lp.Base.Sort.Elem
+			nv = sqApp(sqApp(sqExt(base, "0", lp.Idx, el), sqUnit(v, el), el), sqExt(base, "(+ "+lp.Idx+" 1)", "(- "+sqLen(base, el)+" (+ "+lp.Idx+" 1))", el), el)
 		}
 		ex.store(st, lp.Base, nv)
 	case "sub":
@@ -221,20 +230,21 @@ func (fr *Frame) execInstr(ins ssa.Instruction) {
 			// array cell: initialise with n zero elements
 			es := w.SortOf(arr.Elem())
 			z := w.Zero(es)
-			t := "(as seq.empty " + s.SMT() + ")"
+			t := ""
+			if s.K == KSeq {
+				t = sqEmpty(s.Elem)
+			}
 			if s.K == KString {
 				t = "\"\""
 			}
 			n := int(arr.Len())
 			if n <= 16 && s.K == KSeq {
-				parts := []string{}
 				for k := 0; k < n; k++ {
-					parts = append(parts, "(seq.unit "+z+")")
-				}
-				if n == 1 {
-					t = parts[0]
-				} else if n > 1 {
-					t = "(seq.++ " + strings.Join(parts, " ") + ")"
+					if k == 0 {
+						t = sqUnit(z, s.Elem)
+					} else {
+						t = sqApp(t, sqUnit(z, s.Elem), s.Elem)
+					}
 				}
 			} else {
 				t = vc.fresh("arr", s)
@@ -699,7 +709,7 @@ func lenOf(t string, s *Sort) string {
 	if s.K == KString {
 		return "(str.len " + t + ")"
 	}
-	return "(seq.len " + t + ")"
+	return sqLen(t, s.Elem)
 }
 
 func (fr *Frame) binop(i *ssa.BinOp) *Val {
@@ -842,14 +852,9 @@ func (fr *Frame) sliceOp(i *ssa.Slice) *Val {
 	} else if s.K == KString {
 		t = "(str.substr " + cur + " " + lo + " (- " + hi + " " + lo + "))"
 	} else {
-		t = "(seq.extract " + cur + " " + lo + " (- " + hi + " " + lo + "))"
+		t = sqExt(cur, lo, "(- "+hi+" "+lo+")", s.Elem)
 	}
 	v := &Val{T: ex.vc.define(i.Name(), s, t), S: s}
-	if s.K == KSeq && (i.Low != nil || i.High != nil) {
-		// sound sequence lemma, stated through the bridging function so that it can trigger:
-		// element k of the slice is element k+lo of the sliced sequence
-		ex.vc.assume("(forall ((k Int)) (! (=> (and (<= 0 k) (< k (seq.len " + v.T + "))) (= " + ex.vc.nth(v.T, "k", s.Elem) + " " + ex.vc.nth(cur, "(+ k "+lo+")", s.Elem) + ")) :pattern (" + ex.vc.nth(v.T, "k", s.Elem) + ")))")
-	}
 	if i.Low == nil && i.High == nil && x.Elems != nil {
 		v.Elems = x.Elems
 	}
@@ -923,20 +928,9 @@ func (fr *Frame) allocBounded(ins ssa.Instruction, n *Val) {
 	ex.vc.oblige("alloc-bounded", name, fr.curReach, "(<= "+n.T+" 65536)", "make size bounded", ex.posOf(ins.Pos()), [][2]string{{"size", n.T}})
 }
 
-// nth renders sequence indexing through a bridging function nth_<sort>, axiomatised equal to seq.nth.
-// z3 rewrites seq.nth internally, so it cannot serve as an E-matching trigger; nth_<sort> can.
+// nth renders sequence indexing (axiomatised sequences, see seqenc.go).
 func (vc *VC) nth(s, idx string, elem *Sort) string {
-	name := "nth_" + elem.Ident()
-	if preludeHas[name] {
-		return "(" + name + " " + s + " " + idx + ")"
-	}
-	if !vc.declared[name] {
-		vc.declared[name] = true
-		seq := "(Seq " + elem.SMT() + ")"
-		vc.cmds = append(vc.cmds, fmt.Sprintf("(declare-fun %s (%s Int) %s)", name, seq, elem.SMT()))
-		vc.cmds = append(vc.cmds, fmt.Sprintf("(assert (forall ((s %s) (i Int)) (! (= (%s s i) (seq.nth s i)) :pattern ((%s s i)))))", seq, name, name))
-	}
-	return "(" + name + " " + s + " " + idx + ")"
+	return sqNth(s, idx, elem)
 }
 
 var preludeHas = map[string]bool{}
